@@ -23,7 +23,7 @@ CHECKS = {
    text="For 96 (source, options) bases every triple of read-size classes (including sizes that end exactly on a block-record boundary and sizes below the 7-byte header) is executed (all triples for sources up to 70000 bytes, seeded samples above), 400k patterns quick; each result must be one conforming frame for the source with no trailing bytes; every source call index is failed in turn (persistent, with data, and transient on a fragmenting source); a reader reused with Reset after being abandoned mid-stream / read by one exact-length read / read to EOF / never read must again yield one conforming frame, also when the next user applies another block size and other checksum flags after Reset. The compression level is observed through a probe whose blocks encode differently per level (a block equal to another level's output is a violation).",
    ref="6/C18"),
  "C20": dict(cat="exploration", tech="end-to-end runtime monitoring of the lz4c binary built against the working tree: files through compress/uncompress in scratch directories, output parsed by the independent frame parser, header bits checked against the usage text, bytes compared with the library Writer, mode bits compared",
-   text="192 (quick) / 1500 (thorough) invocation cases over flag sets, file sizes on block boundaries, contents, mode bits, umasks, file and stdin/stdout operation and multi-file invocations.",
+   text="192 (quick) / 1500 (thorough) invocation cases over flag sets, file sizes on block boundaries, contents, mode bits, umasks, file and stdin/stdout operation and multi-file invocations (also files made with different settings uncompressed together, in both orders); every .lz4 file is also decoded by the reference lz4 command where it is installed.",
    ref="6/C20"),
  "C05": dict(cat="exploration", tech="differential runtime monitoring on corrupted frames: whenever the real Reader ends cleanly, an independent frame parser is run on exactly the consumed bytes (counting source) and must accept them and yield the same output",
    text="Seed frames of the option combinations are corrupted by every single-bit flip of every structural field (with and without repairing the header checksum), block delete/duplicate/swap/insert/splice (with and without repairing the content checksum), payload flips (with and without repairing the block checksum), multi-bit flips, substitutions and hostile field values; each mutant is read with several concurrency/read-mode combinations. The evidence counts how many mutants the Reader accepted and that the oracle agreed on each. Hand-built frames of more than 4 GiB of content with a wrong content checksum must be refused.",
@@ -65,7 +65,7 @@ CHECKS = {
    text="Every carry-buffer state (0..15 buffered bytes x next-write length class x following write 0..33, fresh and after a stripe) is driven through the real streaming object with Sum32/Sum probes after each write, all one-shot lengths 0..1024 at 4 alignments, seeded random partitions up to 8 MiB, and every total length 2^32-16..2^32+16 (thorough: one-shot on real 4 GiB buffers and the Writer's content-checksum trailer for 2^32+5 bytes). Held-on-what-was-observed, not a proof; the state space of the 16-byte carry buffer is covered completely, content is sampled.",
    ref="6/C13"),
  "C19": dict(cat="exploration", tech="complete run-time enumeration of the 2^24 (descriptor x checksum byte) header space per content-size value through ValidFrameHeader and a fresh Reader, expected outcome from the independent XXH32",
-   text="All 65536 descriptors x 256 checksum bytes are executed against the real ValidFrameHeader and Reader (Read, Size) with the content-size field present exactly when the descriptor says so; accept/reject, the two distinct error values (errors.Is) and Size() are compared with the reference rule. The descriptor/checksum space is enumerated completely (exhaustive=true); 64-bit content sizes are sampled (2 quick / 16 thorough values incl. 2^64-1, 2^63, 2^31).",
+   text="All 65536 descriptors x 256 checksum bytes are executed against the real ValidFrameHeader and Reader (Read, Size) with the content-size field present exactly when the descriptor says so; accept/reject, the two distinct error values (errors.Is) and Size() are compared with the reference rule. The descriptor/checksum space is enumerated completely (exhaustive=true); 64-bit content sizes are sampled (3 quick: 2^64-1, 0, one seeded; 16 thorough incl. 0, 2^63, 2^31).",
    ref="6/C19"),
 }
 
